@@ -262,6 +262,10 @@ class IDToken(Token):
         if lifetime is None:
             lifetime = self.lifetime
 
+        if alg_dict.get("sign_alg", "").startswith("HS"):
+            # HMAC: the key is the secret shared with the client, kept under the client's ID
+            pack_args["issuer_id"] = client_id
+
         _jwt = JWT(
             self.upstream_get("attribute", "keyjar"),
             iss=_context.issuer,
